@@ -367,6 +367,9 @@ func DescribeDatagram(d *model.DatagramType, raw []byte) string {
 		fmt.Fprintf(&b, " cmd=%s", cc.DataName())
 		if c.ResultData != nil && c.ResultData.ErrorNumber != nil {
 			fmt.Fprintf(&b, " err=%d", *c.ResultData.ErrorNumber)
+			if c.ResultData.Description != nil && *c.ResultData.ErrorNumber != 0 {
+				fmt.Fprintf(&b, " (%s)", string(*c.ResultData.Description))
+			}
 		}
 		if len(c.Filter) > 0 {
 			fmt.Fprintf(&b, " filters=%d", len(c.Filter))
